@@ -91,6 +91,20 @@ def run(res, proof):
                         a, type(a).__name__, b, type(b).__name__, a == b, hash(a) == hash(b)), 'objects of different classes denoting the same thing compare equal and hash equal')
                 if not same and a == b:
                     res.violation('cross-class-equality:' + kind, {'history': list(hl)}, '%r == %r' % (a, b), 'different things compare unequal')
+            # what a live object says about itself does not depend on what lives in the other classes: its canonical form
+            # can be read (it is recomputed on every read for domains) and is the object's own name and length
+            for o in objs:
+                try:
+                    cf = o.canonical_form
+                    if type(o) in iw.classes['dom'] and o.length is not None and tuple(cf[:2]) != ((o.name, o.length), o.name):
+                        res.violation('canonical-form-of-live-object-wrong:' + kind, {'history': list(hl)}, repr(cf), repr(((o.name, o.length), o.name)))
+                except Exception as e:
+                    res.violation('canonical-form-of-live-object-raises:%s:%s' % (kind, type(e).__name__), {'history': list(hl)},
+                                  '%r (%s).canonical_form raises %s: %s' % (o, type(o).__name__, type(e).__name__, str(e)[:80]), 'the canonical form of the object')
+                    e = None
+                res.count('canonical_forms_read')
+            del objs
+            a = b = o = None
             res.evaluations += 1
             res.nontriv(tuple(hl))
             lines += hl; impl += ho
@@ -176,6 +190,36 @@ def run(res, proof):
             out = None
             objectio.clear_io_objects()
             res.count('slot_assignments')
+    # the configured reaction class decides which reaction types it admits (its own RTYPES), not the library class
+    rtext = ('length a = 5\nA = a\nB = a a\nC = a a a\nstate A = [A]\nstate B = [B]\nreaction [fold = 3 /s] A -> B\nreaction [open = 4 /s] B -> A\n'
+             'reaction [bind11 = 5 /s] A -> C\nreaction [condensed = 6 /s] A -> B\n')
+    for rt in (('fold', 'open'), ('fold', 'open', 'bind11', 'condensed'), ('condensed',), tuple(bc.ReactionS.RTYPES)):
+        for via in ('subclass', 'sub-subclass'):
+            RK = type('OwnTypes', (bc.ReactionS,), {'RTYPES': set(rt)})
+            if via == 'sub-subclass':
+                RK = type('OwnTypesChild', (RK,), {})
+            for k in kinds:
+                for c in iw.classes[k]:
+                    clear_singletons(c)
+            objectio.set_io_objects(R=RK)
+            res.evaluations += 1
+            desc = {'slots': {'rxn': '%s of ReactionS with RTYPES = %r' % (via, sorted(rt))}, 'text': rtext}
+            try:
+                out = objectio.read_pil(rtext)
+                got = sorted((type(r) is RK, r.rtype) for r in list(out['det_reactions']) + list(out['con_reactions']))
+                handed_back = sorted(l[1][0][0] for l in out['other'] if l[0] == 'reaction')
+                all_t = ['fold', 'open', 'bind11', 'condensed']
+                want = sorted((True, t) for t in all_t if t in rt)
+                if got != want or handed_back != sorted(t for t in all_t if t not in rt) or len(bc.ReactionS._instanceNames):
+                    res.violation('reader-slots:reaction-types-of-configured-class', desc,
+                                  'reactions built: %r, lines handed back: %r, library-class registry: %d' % (got, handed_back, len(bc.ReactionS._instanceNames)),
+                                  'exactly the types in the configured class RTYPES become its instances, the other lines are handed back')
+                out = None
+            except Exception as e:
+                res.violation('reader-slots:raises:' + type(e).__name__, desc, type(e).__name__, 'the result dictionary'); e = None
+            objectio.clear_io_objects()
+            clear_singletons(RK)
+            res.count('own_reaction_types_cases')
     # re-configuration without clear_io_objects() in between: an omitted slot means the library class again
     for mask1 in [(1, 1, 1, 1, 1), (1, 0, 1, 0, 1), (0, 1, 0, 1, 0)]:
         for mask2 in [(0, 0, 0, 0, 0), (0, 1, 0, 0, 0), (1, 0, 0, 0, 1)]:
